@@ -46,7 +46,11 @@ class BoundingBox(Sequence[float]):
     def __init__(
         self, left: float, bottom: float, right: float, top: float, crs: MaybeCRS = None
     ):
-        self._box = (left, bottom, right, top)
+        # numpy scalars (float32 in particular) would drag later arithmetic into their precision
+        self._box = tuple(
+            v.item() if isinstance(v, numpy.generic) else v
+            for v in (left, bottom, right, top)
+        )
         self._crs = norm_crs(crs)
 
     @property
